@@ -239,10 +239,9 @@ func propSpecs() map[string]*PropSpec {
 	add(&PropSpec{ID: "C01", Title: "Successful generation yields a complete, type-correct package", Level: "other",
 		Outside: []string{"type-checks for EVERY program: only the corpus instantiations are generated and type-checked", "reflect/unsafe access path for unexported fields of imported structs"},
 		RunFn: func(r *Runner) {
+			// K = 3 exists as a harness (VX_C01_nametable_K3) but is not registered on either tier: a thorough
+			// calibration run left 5161 of its obligations undecided after 20 minutes of solving
 			f := "^VX_C01_.*_K2$"
-			if r.Tier == "thorough" {
-				f = "^VX_C01_"
-			}
 			r.modeB("derive", f, true, DefaultBounds)
 			// call-site forms and imported same-named packages (mode A on a hand-written fixture)
 			r.modeStatic("static", "c01forms", "^VX_C01_form_", DefaultBounds, false, func(rel string, fp *FixPkg) {
